@@ -25,15 +25,18 @@ Record tresp := mkTResp {
   tr_at : id; tr_rt : id; tr_idt : bool; tr_scope : string; tr_dpop : bool;
   tr_jkt : id; tr_x5t : id;         (* cnf of the grant just written, as introspection would report it *)
   tr_res : list string;             (* the `resources` member of the response *)
-  tr_aud : list string              (* the `aud` claim of a JWT access token ([] for an opaque one) *)
+  tr_aud : list string;             (* the `aud` claim of a JWT access token ([] for an opaque one) *)
+  tr_details : list adetail;        (* the `authorization_details` member of the response *)
+  tr_jwt_details : list adetail     (* the `authorization_details` claim of a JWT access token ([] for an opaque one) *)
 }.
 
 Record intro := mkIntro {
   in_active : bool; in_refresh : bool; in_scope : string; in_client : id; in_sub : string;
   in_exp : Z; in_jkt : id; in_x5t : id; in_grant : id;
-  in_aud : list string              (* ResourceAudiences, `aud` *)
+  in_aud : list string;             (* ResourceAudiences, `aud` *)
+  in_details : list adetail         (* AuthorizationDetails, `authorization_details` *)
 }.
-Definition inactive : intro := mkIntro false false "" 0 "" 0%Z 0 0 0 [].
+Definition inactive : intro := mkIntro false false "" 0 "" 0%Z 0 0 0 [] [].
 
 Record nav := mkNav {
   n_code : id; n_at : id; n_idt : bool; n_state : string; n_err : option ecode; n_dpop : bool
@@ -106,9 +109,10 @@ Definition should_issue_refresh (cfg : config) (c : client) (gt : grant_type) (a
        (andb (has_grant GRefreshToken (c_grants c)) (negb (gt_eqb gt GClientCredentials))).
 
 Definition new_grant (n : nat) (now : Z) (cfg : config) (tokid : id) (gt : grant_type)
-  (sub : string) (cid : id) (active granted : string) (jkt x5t : id) (active_res granted_res : list string) : gsession :=
+  (sub : string) (cid : id) (active granted : string) (jkt x5t : id) (active_res granted_res : list string)
+  (active_det granted_det : list adetail) : gsession :=
   mkGSession (mint n KGrantId) tokid 0 (now + cf_token_lifetime cfg)%Z (now + cf_token_lifetime cfg)%Z 0
-             gt sub cid active granted jkt x5t active_res granted_res.
+             gt sub cid active granted jkt x5t active_res granted_res active_det granted_det.
 
 (* token.validateResources: every requested resource is among the available ones *)
 Definition validate_resources (cfg : config) (available requested : list string) : bool :=
@@ -124,6 +128,52 @@ Definition grant_granted_res (cfg : config) (granted : list string) : list strin
    authorization request asked for *)
 Definition resources_out (cfg : config) (active requested_at_authz : list string) : list string :=
   if andb (cf_resource_enabled cfg) (negb (res_eqb active requested_at_authz)) then active else [].
+
+(* ---- RFC 9396 authorization details at the token endpoint (internal/token/validation.go) ---- *)
+(* ctx.CompareAuthDetails with the embedder's function *)
+Definition compare_details (f : details_cmp) (granted requested : list adetail) : bool :=
+  match f with
+  | CmpNone => false
+  | CmpSubset => ad_subset requested granted
+  | CmpAcceptAll => true
+  | CmpTypes => subset (ad_types requested) (ad_types granted)
+  end.
+(* validateAuthDetailsTypes: EVERY requested detail has a type the server supports (skipped when the
+   feature is off or the parameter absent) *)
+Definition validate_details_types (cfg : config) (req : opt_details) : bool :=
+  match req with
+  | Some l => if cf_auth_details_enabled cfg then types_supported (cf_auth_detail_types cfg) l else true
+  | None => true
+  end.
+(* validateAuthDetails: the type check, then the embedder's comparison with the granted details *)
+Definition validate_details (cfg : config) (granted : list adetail) (req : opt_details) : bool :=
+  match req with
+  | Some l => if cf_auth_details_enabled cfg
+              then andb (types_supported (cf_auth_detail_types cfg) l) (compare_details (cf_details_cmp cfg) granted l)
+              else true
+  | None => true
+  end.
+(* authorizationCodeGrantInfo / cibaGrantInfo: active and granted details of a grant made from a session *)
+Definition grant_active_details (cfg : config) (granted : list adetail) (req : opt_details) : list adetail :=
+  if cf_auth_details_enabled cfg then (match req with Some l => l | None => granted end) else [].
+Definition grant_granted_details (cfg : config) (granted : list adetail) : list adetail :=
+  if cf_auth_details_enabled cfg then granted else [].
+(* clientCredentialsGrantInfo: granted = active = requested *)
+Definition ownerless_details (cfg : config) (req : opt_details) : list adetail :=
+  if cf_auth_details_enabled cfg then (match req with Some l => l | None => [] end) else [].
+(* updateRefreshTokenGrantInfo: untouched when the feature is off *)
+Definition refresh_active_details (cfg : config) (g : gsession) (req : opt_details) : list adetail :=
+  if cf_auth_details_enabled cfg then (match req with Some l => l | None => g_granted_details g end)
+  else g_active_details g.
+
+(* proofs about the handlers treat these as black boxes (cbn/simpl leave them alone) *)
+Arguments compare_details : simpl never.
+Arguments validate_details_types : simpl never.
+Arguments validate_details : simpl never.
+Arguments grant_active_details : simpl never.
+Arguments grant_granted_details : simpl never.
+Arguments ownerless_details : simpl never.
+Arguments refresh_active_details : simpl never.
 
 Definition with_refresh (n : nat) (now : Z) (cfg : config) (c : client) (g : gsession) : gsession :=
   if should_issue_refresh cfg c (g_type g) (g_active g)
@@ -150,7 +200,8 @@ Record treq := mkTReq {
   t_hg : hg_reply;
   t_ba : ba_reply;
   t_resources : list string;        (* the `resource` form parameters *)
-  t_assertion : assertion           (* jwt-bearer only *)
+  t_assertion : assertion;          (* jwt-bearer only *)
+  t_auth_details : opt_details      (* the `authorization_details` form parameter *)
 }.
 
 (* token.validatePkce / isPKCEValid *)
@@ -170,8 +221,13 @@ Definition validate_pkce (cfg : config) (verifier : pk) (s : asession) : option 
 (* Make: a JWT access token carries aud = ActiveResources *)
 Definition jwt_aud (c : client) (gt : grant_type) (active_res : list string) : list string :=
   if token_is_jwt c gt then active_res else [].
+(* the access token value is a JWT (handles of kind KAtJwt) *)
+Definition at_is_jwt (at_ : id) : bool := N.eqb (kind_of at_) (kind_ix KAtJwt).
+Arguments at_is_jwt : simpl never.
+(* every grant answers AuthorizationDetails: ActiveAuthDetails; Make puts the same list in a JWT access token *)
 Definition tokens_out (cfg : config) (at_ : id) (g : gsession) (rt : id) (scope : string) (res aud : list string) : out :=
-  OTokens (mkTResp at_ rt (contains_openid (g_active g)) scope (negb (is_nil (g_jkt g))) (g_jkt g) (g_x5t g) res aud).
+  OTokens (mkTResp at_ rt (contains_openid (g_active g)) scope (negb (is_nil (g_jkt g))) (g_jkt g) (g_x5t g) res aud
+                   (g_active_details g) (if at_is_jwt at_ then g_active_details g else [])).
 
 (* ---- grant_type=authorization_code ---- *)
 Definition code_grant (w : world) (n : nat) (now : Z) (r : treq) : prog out :=
@@ -203,6 +259,7 @@ Definition code_grant (w : world) (n : nat) (now : Z) (r : treq) : prog out :=
           | Some e => Ret (OErr e)
           | None =>
             if negb (validate_resources cfg (a_granted_res s) (t_resources r)) then Ret (OErr EInvalidTarget) else
+            if negb (validate_details cfg (a_granted_details s) (t_auth_details r)) then Ret (OErr EInvalidAuthDetails) else
             if negb (contains_all_scopes (a_granted s) (t_scope r)) then Ret (OErr EInvalidScope) else
             let active := if is_empty (t_scope r) then a_granted s else t_scope r in
             let ares := grant_active_res cfg (a_granted_res s) (t_resources r) in
@@ -212,7 +269,9 @@ Definition code_grant (w : world) (n : nat) (now : Z) (r : treq) : prog out :=
             | None =>
               let '(tv, tid) := make_token n c GAuthorizationCode in
               let g0 := new_grant n now cfg tid GAuthorizationCode (a_subject s) (a_client s)
-                          active (a_granted s) (set_pop_jkt cfg (t_bind r)) (set_pop_x5t cfg (t_bind r)) ares gres in
+                          active (a_granted s) (set_pop_jkt cfg (t_bind r)) (set_pop_x5t cfg (t_bind r)) ares gres
+                          (grant_active_details cfg (a_granted_details s) (t_auth_details r))
+                          (grant_granted_details cfg (a_granted_details s)) in
               let g := with_refresh n now cfg c (g0 <| g_code := a_code s |>) in
               Do (GSave g) (fun rs =>
               match rs with
@@ -258,6 +317,7 @@ Definition refresh_grant (w : world) (n : nat) (now : Z) (r : treq) : prog out :
       | None =>
         if negb (contains_all_scopes (g_granted g) (t_scope r)) then Ret (OErr EInvalidScope) else
         if negb (validate_resources cfg (g_granted_res g) (t_resources r)) then Ret (OErr EInvalidTarget) else
+        if negb (validate_details cfg (g_granted_details g) (t_auth_details r)) then Ret (OErr EInvalidAuthDetails) else
         let active := if is_empty (t_scope r) then g_granted g else t_scope r in
         (* updateRefreshTokenGrantInfo: untouched when resource indicators are off *)
         let ares := if cf_resource_enabled cfg
@@ -274,7 +334,8 @@ Definition refresh_grant (w : world) (n : nat) (now : Z) (r : treq) : prog out :
                       then b_cert (t_bind r) else g_x5t g in
           let g' := mkGSession (g_id g) tid (if cf_refresh_rotation cfg then mint n KRefresh else g_refresh g)
                       (now + cf_token_lifetime cfg)%Z (g_expires g) (g_code g) GRefreshToken (g_subject g) (g_client g)
-                      active (g_granted g) jkt' x5t' ares (g_granted_res g) in
+                      active (g_granted g) jkt' x5t' ares (g_granted_res g)
+                      (refresh_active_details cfg g (t_auth_details r)) (g_granted_details g) in
           Touch (OG g')
           (Do (GSave g') (fun rs =>
            match rs with
@@ -301,6 +362,7 @@ Definition cc_grant (w : world) (n : nat) (now : Z) (r : treq) : prog out :=
     | None =>
       if negb (are_scopes_allowed (c_scopes c) (cf_scopes cfg) (t_scope r)) then Ret (OErr EInvalidScope) else
       if negb (validate_resources cfg (cf_resources cfg) (t_resources r)) then Ret (OErr EInvalidTarget) else
+      if negb (validate_details_types cfg (t_auth_details r)) then Ret (OErr EInvalidAuthDetails) else
       (* clientCredentialsGrantInfo: granted = active = requested *)
       let res := if cf_resource_enabled cfg then t_resources r else [] in
       match hg_result (t_hg r) with
@@ -308,7 +370,8 @@ Definition cc_grant (w : world) (n : nat) (now : Z) (r : treq) : prog out :=
       | None =>
         let '(tv, tid) := make_token n c GClientCredentials in
         let g := new_grant n now cfg tid GClientCredentials (cname (c_id c)) (c_id c) (t_scope r) (t_scope r)
-                   (set_pop_jkt cfg (t_bind r)) (set_pop_x5t cfg (t_bind r)) res res in
+                   (set_pop_jkt cfg (t_bind r)) (set_pop_x5t cfg (t_bind r)) res res
+                   (ownerless_details cfg (t_auth_details r)) (ownerless_details cfg (t_auth_details r)) in
         Do (GSave g) (fun rs =>
         match rs with
         | RFail => Ret (OErr EInternalError)
@@ -325,7 +388,7 @@ Definition cc_grant (w : world) (n : nat) (now : Z) (r : treq) : prog out :=
    opaque access tokens under the harness's TokenOptionsFunc, public subject). *)
 Definition anonymous_client (cfg : config) : client :=
   mkClient 0 false [GJwtBearer] [] [] (String.concat " " (map sc_id (cf_scopes cfg))) CibaNone
-           false false false false false false false 0 false.
+           false false false false false false false 0 false None.
 
 (* the client of a jwt-bearer request.  clientutil.Authenticated fails with ErrClientNotIdentified
    exactly when the request carries no client identification at all (cr_id = 0: no client_id, no
@@ -357,6 +420,8 @@ Definition jwt_bearer_grant (w : world) (n : nat) (now : Z) (r : treq) : prog ou
       | a =>
         if negb (are_scopes_allowed (c_scopes c) (cf_scopes cfg) (t_scope r)) then Ret (OErr EInvalidScope) else
         if negb (validate_resources cfg (cf_resources cfg) (t_resources r)) then Ret (OErr EInvalidTarget) else
+        (* the types of requested authorization details are checked, but jwtBearerGrantOptions records none *)
+        if negb (validate_details_types cfg (t_auth_details r)) then Ret (OErr EInvalidAuthDetails) else
         (* ctx.HandleJWTBearerGrantAssertion *)
         match a with
         | AsOk sub =>
@@ -368,7 +433,7 @@ Definition jwt_bearer_grant (w : world) (n : nat) (now : Z) (r : treq) : prog ou
             let '(tv, tid) := make_token n c GJwtBearer in
             let g := with_refresh n now cfg c
                        (new_grant n now cfg tid GJwtBearer sub (c_id c) (t_scope r) (t_scope r)
-                          (set_pop_jkt cfg (t_bind r)) (set_pop_x5t cfg (t_bind r)) res res) in
+                          (set_pop_jkt cfg (t_bind r)) (set_pop_x5t cfg (t_bind r)) res res [] []) in
             Do (GSave g) (fun rs =>
             match rs with
             | RFail => Ret (OErr EInternalError)
@@ -404,6 +469,7 @@ Definition ciba_grant (w : world) (n : nat) (now : Z) (r : treq) : prog out :=
         | None =>
           let continue_ :=
             if negb (validate_resources cfg (a_granted_res s) (t_resources r)) then Ret (OErr EInvalidTarget) else
+            if negb (validate_details cfg (a_granted_details s) (t_auth_details r)) then Ret (OErr EInvalidAuthDetails) else
             if negb (contains_all_scopes (a_granted s) (t_scope r)) then Ret (OErr EInvalidScope) else
             let active := if is_empty (t_scope r) then a_granted s else t_scope r in
             let ares := grant_active_res cfg (a_granted_res s) (t_resources r) in
@@ -414,7 +480,9 @@ Definition ciba_grant (w : world) (n : nat) (now : Z) (r : treq) : prog out :=
               let '(tv, tid) := make_token n c GCiba in
               let g := with_refresh n now cfg c
                          (new_grant n now cfg tid GCiba (a_subject s) (a_client s) active (a_granted s)
-                            (set_pop_jkt cfg (t_bind r)) (set_pop_x5t cfg (t_bind r)) ares gres) in
+                            (set_pop_jkt cfg (t_bind r)) (set_pop_x5t cfg (t_bind r)) ares gres
+                            (grant_active_details cfg (a_granted_details s) (t_auth_details r))
+                            (grant_granted_details cfg (a_granted_details s))) in
               Do (GSave g) (fun rs =>
               match rs with
               | RFail => Ret (OErr EInternalError)
@@ -474,7 +542,7 @@ Definition introspection_info (now : Z) (p : ptok) : prog intro :=
       | RGSess g =>
           if geb now (g_last_exp g) then Ret inactive else
           Ret (mkIntro true false (g_active g) (g_client g) (g_subject g) (g_last_exp g) (g_jkt g) (g_x5t g) (g_id g)
-                       (g_active_res g))
+                       (g_active_res g) (g_active_details g))
       | _ => Ret inactive
       end)
   | LByRefresh i =>
@@ -483,7 +551,7 @@ Definition introspection_info (now : Z) (p : ptok) : prog intro :=
       | RGSess g =>
           if geb now (g_expires g) then Ret inactive else
           Ret (mkIntro true true (g_granted g) (g_client g) (g_subject g) (g_expires g) (g_jkt g) (g_x5t g) (g_id g)
-                       (g_granted_res g))
+                       (g_granted_res g) (g_granted_details g))
       | _ => Ret inactive
       end)
   end.
